@@ -19,7 +19,9 @@ use super::{
 use crate::array::DataChunk;
 use crate::catalog::find_sort_key_id;
 use crate::storage::secondary::statistics::create_statistics_global_aggregator;
-use crate::storage::{ScanOptions, StorageColumnRef, StorageResult, Transaction};
+use crate::storage::{
+    ScanOptions, StorageColumnRef, StorageResult, TracedStorageError, Transaction,
+};
 use crate::types::DataValue;
 
 /// A transaction running on `SecondaryStorage`.
@@ -132,6 +134,20 @@ impl SecondaryTransaction {
         }
 
         let rowsets = std::mem::take(&mut self.to_be_committed_rowsets);
+
+        // The rows to delete were located in a snapshot that may be older than the latest
+        // version: a compaction can have replaced their RowSets since. A DV for a RowSet that
+        // is gone would delete nothing, so fail the transaction instead of acknowledging it.
+        // (We hold the deletion lock of the table, so no compaction can happen from now on.)
+        if !delete_split_map.is_empty() {
+            let latest = self.version.pin();
+            let live_rowsets = latest.snapshot.get_rowsets_of(self.table.table_id());
+            for rowset_id in delete_split_map.keys() {
+                if !live_rowsets.is_some_and(|rowsets| rowsets.contains(rowset_id)) {
+                    return Err(TracedStorageError::not_found("rowset", rowset_id));
+                }
+            }
+        }
 
         let mut dvs = vec![];
         for (rowset_id, deletes) in delete_split_map {
